@@ -355,7 +355,7 @@ Qed.
 Lemma subclass_fields : forall s parent name fs s' n,
   subclass s parent name fs = ROk (s', n) ->
   fields_of s' n = fs /\ NoDup (keys fs) /\
-  (fields_of s parent <> [] -> get_extends s' n = Some parent).
+  ((fields_of s parent <> [] \/ get_extends s parent <> None) -> get_extends s' n = Some parent).
 Proof.
   intros. destruct (subclass_shape _ _ _ _ _ _ H) as [rp [ex [L [K [O [V1 [V2 [X [Y [N S']]]]]]]]]].
   subst. apply distinct_keys_NoDup in V2.
@@ -365,7 +365,10 @@ Proof.
   - unfold fields_of. rewrite lookup_alloc_new. simpl. exact F.
   - unfold fields_of. rewrite L. intros NE.
     destruct X as [X | X]; subst ex.
-    + destruct Y as [Y _]. specialize (Y eq_refl). contradiction.
+    + destruct Y as [Y _]. specialize (Y eq_refl). unfold real_base in Y. exfalso.
+      destruct (c_fields rp); [| discriminate].
+      destruct (get_extends s parent); [discriminate |].
+      destruct NE as [NE | NE]; apply NE; reflexivity.
     + apply (get_extends_own _ _ _ _ (lookup_alloc_new _ _)). reflexivity.
 Qed.
 
